@@ -104,11 +104,14 @@ def check_c13(prop, tier, seed, sd, t0):
     elif divs:
         raise Inconclusive('the file-system model and the real file system disagree (%s): model or converter is wrong' % divs[:3])
     cases = [e for e in events if e['ev'] == 'call']
-    distinct = len({(e['size'], e['pre'], e['kind'], e['fail']) for e in cases})
+    distinct = len({(e['size'], e['pre'], e['kind'], e['fail'], e['held']) for e in cases})
+    held_cases = sum(1 for e in cases if e['held'])
+    if held_cases < 10:
+        raise Inconclusive('the probe produced no held-file cases')
     cov = dict(states=mc['states'], transitions=mc['transitions'], traces_validated_against_impl=calls,
-               samples=events[:14], evaluations=calls, distinct_nontrivial=distinct, syscall_events=syscalls,
+               samples=events[:14], evaluations=calls, distinct_nontrivial=distinct, syscall_events=syscalls, held_file_cases=held_cases,
                rule='one real FileSystemDirectory.Persist call per (item kind x size x pre-existing file state x failure mode); sizes 0,1,buffer-1,buffer,'
-                    'buffer+1,3*buffer (+ every size <= 64 and powers of two +-1 in the thorough tier) x {absent, shorter, equal, longer} x {no failure, '
+                    'buffer+1,3*buffer (+ every size <= 64 and powers of two +-1 in the thorough tier) x {absent, shorter, equal, longer, held by an open Load (the Persist is refused and must leave the file as it was)} x {no failure, '
                     'error after 0 / half / all bytes, cancellation at 0 / half}; the strace record of each call is replayed by TLC through DirFS '
                     'system-call semantics and the C13 clauses are evaluated when Persist returns; distinct = distinct (size, pre, kind, failure) tuples',
                exhaustive=False, model_config=mc)
